@@ -657,6 +657,17 @@ func c19WalkCase(ctx *Ctx, v cty.Value) []c19Visit {
 		setStep := hasSetStep(v, e.p)
 		ctx.Eval("leadback "+vw+" "+pk, len(e.p) > 0 && !setStep)
 		if setStep {
+			// d19b (C19.walk_paths_through_sets_do_not_apply): a reported path that passes through a set does
+			// not apply: Path.Apply answers with an error, it neither panics nor returns some other member
+			ctx.Tag("apply:visited-through-set")
+			ctx.Eval("setpath "+vw+" "+pk, true)
+			if pan || err == nil {
+				sig := "applies"
+				if pan {
+					sig = "panic"
+				}
+				ctx.Fail(Failure{Site: "walk-set-path", Sig: sig, What: "a visited path that passes through a set did not answer with an error", Input: vw + " " + pk, GoLit: lit + " ; " + pathLit(e.p), Outcome: impl})
+			}
 			continue
 		}
 		if pan || err != nil {
@@ -751,6 +762,31 @@ func c19TransformCase(ctx *Ctx, v cty.Value, wlog []c19Visit) {
 		ctx.Add("walk.trans", encLog(log)+" "+outcome, orc.enc(), schedOf(log, first), mode,
 			"(tcb ("+encRules(enter)+") ("+encRules(exit)+"))", vw)
 		ctx.Tag("transform:" + mode)
+		if mode == "full" {
+			// d19b (C19.transform_calls_properly_nested): whatever the transformer does, Exit(p) is only called for
+			// the most recent Enter(p) still open; a successful run leaves nothing open
+			var st []string
+			nested := true
+			for _, e := range log {
+				pk := encPath(e.p)
+				if e.kind == "e" {
+					st = append(st, pk)
+				} else if len(st) == 0 || st[len(st)-1] != pk {
+					nested = false
+					break
+				} else {
+					st = st[:len(st)-1]
+				}
+			}
+			if nested && strings.HasPrefix(outcome, "ok ") && len(st) != 0 {
+				nested = false
+			}
+			ctx.Eval("tnest "+vw+" "+encRules(enter)+" "+encRules(exit), len(log) > 2)
+			if !nested {
+				ctx.Fail(Failure{Site: "transform-nesting", Sig: "not-nested", What: "the Enter / Exit calls of TransformWithTransformer are not properly nested",
+					Input: vw + " (" + encRules(enter) + ") (" + encRules(exit) + ")", GoLit: lit + " ; Enter " + litRules(enter) + " ; Exit " + litRules(exit), Outcome: encLog(log) + " " + outcome})
+			}
+		}
 		return res, outcome, log
 	}
 
@@ -892,8 +928,15 @@ func c19TransformCase(ctx *Ctx, v cty.Value, wlog []c19Visit) {
 			repl = cty.UnknownVal(ty)
 		}
 		rule := c19Rule{at: encPath(tgt.p), act: "ret", val: repl}
-		log, _, res, outcome := transformReal(v, "full", []c19Rule{rule}, nil)
+		// d19b: through emit, so that the run is a `walk.trans` correspondence case as well (the model's Enter path:
+		// C19.transform_enter_replace is about Walk.transformWith with this very transformer)
+		res, outcome, log := emit("full", []c19Rule{rule}, nil)
 		ctx.Eval("tenter "+vw+" "+rule.enc(), true)
+		if tu.IsNull() || !tu.IsKnown() {
+			ctx.Tag("tenter:leaf-to-container")
+		} else {
+			ctx.Tag("tenter:container-to-leaf")
+		}
 		ctx.Tag("transform:enter-replace")
 		glit := lit + " ; Enter " + rule.lit()
 		if !strings.HasPrefix(outcome, "ok ") {
@@ -932,12 +975,35 @@ func c19TransformCase(ctx *Ctx, v cty.Value, wlog []c19Visit) {
 				seenE[encPath(e.p)] = true
 			}
 		}
-		for pth := range want {
+		for _, pth := range sortedKeys(want) {
 			if !seenE[pth] {
 				ctx.Fail(Failure{Site: "transform-enter-replace", Sig: "member-of-replacement-not-entered", What: "a member of the value Enter returned was never passed to Enter",
 					Input: vw + " " + rule.enc() + " " + pth, GoLit: glit, Outcome: encLog(log)})
 				break
 			}
+		}
+		// d19b (C19.transform_enter_replace, last clauses): the Enter calls at or below the path are exactly one per
+		// member of the REPLACEMENT (plus the one that received the original member): the members of the original are
+		// never entered, no member of the replacement twice — counted, so that members below sets are included
+		nEnter := 0
+		for _, e := range log {
+			if e.kind != "e" || len(e.p) < len(tgt.p) {
+				continue
+			}
+			pre := true
+			for i := range tgt.p {
+				if encStep(e.p[i]) != encStep(tgt.p[i]) {
+					pre = false
+					break
+				}
+			}
+			if pre {
+				nEnter++
+			}
+		}
+		if want := c19Count(repl); nEnter != want {
+			ctx.Fail(Failure{Site: "transform-enter-replace", Sig: "enter-count", What: fmt.Sprintf("%d Enter calls at or below the path, the value Enter returned has %d members (itself included)", nEnter, want),
+				Input: vw + " " + rule.enc(), GoLit: glit, Outcome: encLog(log)})
 		}
 	}
 
@@ -1340,4 +1406,5 @@ func runC19(ctx *Ctx) {
 	}
 	runC19PathSet(ctx)
 	runC19D19(ctx)
+	runC19D19b(ctx)
 }
